@@ -4,6 +4,7 @@ import Py4hwV.Emit.Flat
   an acyclic, single-driver list of whole-net continuous assigns exists, is unique, and is reached by `length` passes
   in ANY textual order.
 -/
+set_option linter.unusedSimpArgs false
 namespace FlatM
 open V
 
@@ -19,10 +20,14 @@ theorem isMem_congr {r r' : Rd} (h : r.info = r'.info) (n : String) : isMem r n 
   simp [isMem, h]
 
 theorem selfW_congr {r r' : Rd} (h : r.info = r'.info) (e : Expr) : selfW r e = selfW r' e := by
-  induction e <;> simp [selfW, widthOf_congr h, isMem_congr h, *]
+  induction e with
+  | num w s v k => cases w <;> rfl
+  | _ => simp [selfW, widthOf_congr h, isMem_congr h, *]
 
 theorem isSg_congr {r r' : Rd} (h : r.info = r'.info) (e : Expr) : isSg r e = isSg r' e := by
-  induction e <;> simp [isSg, signedOf_congr h, *]
+  induction e with
+  | num w s v k => rfl
+  | _ => simp [isSg, signedOf_congr h, *]
 
 theorem eval_congr {r r' : Rd} (hi : r.info = r'.info) (hm : r.mem = r'.mem) (e : Expr)
     (hv : ∀ n, n ∈ reads e → r.val n = r'.val n) (W : Nat) (sg : Bool) : eval r W sg e = eval r' W sg e := by
@@ -65,5 +70,332 @@ theorem eval_congr {r r' : Rd} (hi : r.info = r'.info) (hm : r.mem = r'.mem) (e 
 theorem evalAssign_congr {r r' : Rd} (hi : r.info = r'.info) (hm : r.mem = r'.mem) (e : Expr)
     (hv : ∀ n, n ∈ reads e → r.val n = r'.val n) (lw : Nat) : evalAssign r lw e = evalAssign r' lw e := by
   simp only [evalAssign, eval_congr hi hm e hv, selfW_congr hi, isSg_congr hi]
+
+/-! ### single steps -/
+
+theorem norm_evalAssign (r : Rd) (w : Nat) (e : Expr) : norm w (evalAssign r w e) = evalAssign r w e := by
+  unfold evalAssign norm
+  simp only
+  split <;> simp [BV.x, Nat.mod_mod]
+
+@[simp] theorem setWhole_info (r : Rd) (n : String) (v : BV) : (setWhole r n v).info = r.info := rfl
+@[simp] theorem setWhole_mem (r : Rd) (n : String) (v : BV) : (setWhole r n v).mem = r.mem := rfl
+
+@[simp] theorem wrA_info (r : Rd) (t : Tgt) (v : BV) : (wrA r t v).info = r.info := by cases t <;> rfl
+@[simp] theorem wrA_mem (r : Rd) (t : Tgt) (v : BV) : (wrA r t v).mem = r.mem := by cases t <;> rfl
+
+@[simp] theorem stepA_info (r : Rd) (a : LHS × Expr) : (stepA r a).info = r.info := wrA_info _ _ _
+@[simp] theorem stepA_mem (r : Rd) (a : LHS × Expr) : (stepA r a).mem = r.mem := wrA_mem _ _ _
+
+theorem passA_info (as : List (LHS × Expr)) (r : Rd) : (passA as r).info = r.info := by
+  induction as generalizing r with
+  | nil => rfl
+  | cons a as ih => simp only [passA, List.foldl] at ih ⊢; rw [ih, stepA_info]
+
+theorem passA_mem (as : List (LHS × Expr)) (r : Rd) : (passA as r).mem = r.mem := by
+  induction as generalizing r with
+  | nil => rfl
+  | cons a as ih => simp only [passA, List.foldl] at ih ⊢; rw [ih, stepA_mem]
+
+theorem iter_passA_info (as : List (LHS × Expr)) (k : Nat) (r : Rd) : (Net.iter (passA as) k r).info = r.info := by
+  induction k generalizing r with
+  | zero => rfl
+  | succ k ih => simp only [Net.iter]; rw [ih, passA_info]
+
+theorem iter_passA_mem (as : List (LHS × Expr)) (k : Nat) (r : Rd) : (Net.iter (passA as) k r).mem = r.mem := by
+  induction k generalizing r with
+  | zero => rfl
+  | succ k ih => simp only [Net.iter]; rw [ih, passA_mem]
+
+theorem LhsOk_congr {r r' : Rd} (h : r.info = r'.info) {l : LHS} (hl : LhsOk r l) : LhsOk r' l := by
+  cases l with
+  | lid n => exact ⟨rfl, rfl⟩
+  | lidx n i =>
+    exfalso
+    have := hl.1
+    simp only [resolve] at this
+    split at this
+    · cases this
+    · split at this <;> cases this
+  | lrng n hi lo =>
+    have h1 := hl.1
+    have h2 := hl.2
+    simp only [resolve, lhsWidth, LHS.name, widthOf_congr h] at h1 h2 ⊢
+    exact ⟨h1, h2⟩
+
+theorem stepA_val {r : Rd} {a : LHS × Expr} (h : LhsOk r a.1) (m : String) :
+    (stepA r a).val m = if m = tgt a then evalAssign r (widthOf r (tgt a)) a.2 else r.val m := by
+  unfold stepA
+  rw [h.1, h.2]
+  simp only [wrA, setWhole, tgt, norm_evalAssign]
+  by_cases e : m = a.1.name <;> simp [e]
+
+/-! ### existence: one pass in a sources-first order settles -/
+
+theorem passA_val_other (as : List (LHS × Expr)) (r : Rd) (hok : ∀ a, a ∈ as → LhsOk r a.1) (n : String)
+    (hn : ∀ b, b ∈ as → n ≠ tgt b) : (passA as r).val n = r.val n := by
+  induction as generalizing r with
+  | nil => rfl
+  | cons a as ih =>
+    simp only [passA, List.foldl] at ih ⊢
+    rw [ih (stepA r a) (fun b hb => LhsOk_congr (stepA_info r a).symm (hok b (by simp [hb])))
+      (fun b hb => hn b (by simp [hb]))]
+    rw [stepA_val (hok a (by simp)), if_neg (hn a (by simp))]
+
+theorem pass_topo_settled (as : List (LHS × Expr)) (hA : Acyc as) (r : Rd) (hok : ∀ a, a ∈ as → LhsOk r a.1) :
+    Settled as (passA as r) := by
+  induction as generalizing r with
+  | nil => intro a ha; cases ha
+  | cons a rest ih =>
+    obtain ⟨hr, hw, hrest⟩ := hA
+    have hok' : ∀ b, b ∈ rest → LhsOk (stepA r a) b.1 :=
+      fun b hb => LhsOk_congr (stepA_info r a).symm (hok b (by simp [hb]))
+    have ihr := ih hrest (stepA r a) hok'
+    intro k hk
+    simp only [List.mem_cons] at hk
+    rcases hk with hk | hk
+    · subst hk
+      have hfin : passA (k :: rest) r = passA rest (stepA r k) := rfl
+      rw [hfin]
+      have hi : (passA rest (stepA r k)).info = r.info := by rw [passA_info, stepA_info]
+      have hm : (passA rest (stepA r k)).mem = r.mem := by rw [passA_mem, stepA_mem]
+      rw [passA_val_other rest _ hok' (tgt k) (fun b hb => hw b hb), stepA_val (hok k (by simp)), if_pos rfl,
+        widthOf_congr hi]
+      apply (evalAssign_congr hi hm _ _ _).symm
+      intro n hn
+      rw [passA_val_other rest _ hok' n (fun b hb => hr b (by simp [hb]) n hn), stepA_val (hok k (by simp)),
+        if_neg (hr k (by simp) n hn)]
+    · exact ihr k hk
+
+/-! ### uniqueness -/
+
+theorem settled_unique (as : List (LHS × Expr)) (hA : Acyc as) (r₁ r₂ : Rd) (hi : r₁.info = r₂.info) (hm : r₁.mem = r₂.mem)
+    (h₁ : Settled as r₁) (h₂ : Settled as r₂)
+    (hext : ∀ n, (∀ b, b ∈ as → n ≠ tgt b) → r₁.val n = r₂.val n) : ∀ n, r₁.val n = r₂.val n := by
+  induction as with
+  | nil => intro n; exact hext n (by intro b hb; cases hb)
+  | cons a rest ih =>
+    obtain ⟨hr, hw, hrest⟩ := hA
+    have hreads : ∀ n, n ∈ reads a.2 → r₁.val n = r₂.val n := fun n hn => hext n (fun b hb => hr b hb n hn)
+    have hta : r₁.val (tgt a) = r₂.val (tgt a) := by
+      rw [h₁ a (by simp), h₂ a (by simp), widthOf_congr hi]
+      exact evalAssign_congr hi hm _ hreads _
+    apply ih hrest (fun k hk => h₁ k (by simp [hk])) (fun k hk => h₂ k (by simp [hk]))
+    intro n hn
+    by_cases e : n = tgt a
+    · rw [e]; exact hta
+    · apply hext n
+      intro b hb
+      simp only [List.mem_cons] at hb
+      rcases hb with hb | hb
+      · subst hb; exact e
+      · exact hn b hb
+
+/-! ### passes in ANY textual order reach the settled valuation -/
+
+theorem acyc_append {l1 l2 : List (LHS × Expr)} (h : Acyc (l1 ++ l2)) : Acyc l2 := by
+  induction l1 with
+  | nil => exact h
+  | cons a l ih => exact ih h.2.2
+
+theorem acyc_reads {p1 p2 : List (LHS × Expr)} {b : LHS × Expr} (h : Acyc (p1 ++ b :: p2)) :
+    ∀ n, n ∈ reads b.2 → n ∉ (b :: p2).map tgt := by
+  have h' := (acyc_append h).1
+  intro n hn hmem
+  rcases List.mem_map.mp hmem with ⟨c, hc, e⟩
+  exact h' c hc n hn e.symm
+
+theorem acyc_tgt_inj {l : List (LHS × Expr)} (h : Acyc l) {a b : LHS × Expr} (ha : a ∈ l) (hb : b ∈ l)
+    (e : tgt a = tgt b) : a = b := by
+  induction l with
+  | nil => cases ha
+  | cons x l ih =>
+    simp only [List.mem_cons] at ha hb
+    rcases ha with ha | ha <;> rcases hb with hb | hb
+    · rw [ha, hb]
+    · subst ha; exact absurd e (h.2.1 b hb)
+    · subst hb; exact absurd e.symm (h.2.1 a ha)
+    · exact ih h.2.2 ha hb
+
+/-- names already final after the assigns `pre` (a prefix of the sources-first order `topo`): their targets, and
+    everything no assign drives -/
+def Dn (topo pre : List (LHS × Expr)) (n : String) : Prop := n ∈ pre.map tgt ∨ n ∉ topo.map tgt
+
+theorem Dn_closed {topo pre post : List (LHS × Expr)} (hA : Acyc topo) (ht : topo = pre ++ post)
+    (b : LHS × Expr) (hb : b ∈ topo) (hD : Dn topo pre (tgt b)) : ∀ n, n ∈ reads b.2 → Dn topo pre n := by
+  have hbpre : b ∈ pre := by
+    rcases hD with h | h
+    · rcases List.mem_map.mp h with ⟨c, hc, e⟩
+      have hc' : c ∈ topo := by rw [ht]; simp [hc]
+      rw [← acyc_tgt_inj hA hc' hb e]; exact hc
+    · exact absurd (List.mem_map.mpr ⟨b, hb, rfl⟩) h
+  obtain ⟨p1, p2, hp⟩ := List.append_of_mem hbpre
+  intro n hn
+  by_cases hmem : n ∈ topo.map tgt
+  · left
+    have hsplit : topo = p1 ++ b :: (p2 ++ post) := by rw [ht, hp]; simp
+    have hnot := acyc_reads (hsplit ▸ hA) n hn
+    rw [hsplit] at hmem
+    simp only [List.map_append, List.mem_append] at hmem
+    rcases hmem with h | h
+    · rw [hp]; simp only [List.map_append, List.mem_append]; left; exact h
+    · exact absurd h hnot
+  · right; exact hmem
+
+theorem Dn_next {topo pre post : List (LHS × Expr)} {a : LHS × Expr} (hA : Acyc topo) (ht : topo = pre ++ a :: post) :
+    ∀ n, n ∈ reads a.2 → Dn topo pre n := by
+  intro n hn
+  by_cases hmem : n ∈ topo.map tgt
+  · left
+    have hnot := acyc_reads (ht ▸ hA) n hn
+    rw [ht] at hmem
+    simp only [List.map_append, List.mem_append] at hmem
+    rcases hmem with h | h
+    · exact h
+    · exact absurd h hnot
+  · right; exact hmem
+
+section Reach
+variable {as topo : List (LHS × Expr)} {fin : Rd}
+
+/-- one assign keeps every closed set of final names final -/
+theorem step_agree (hS : Settled topo fin) (hmem : ∀ a, a ∈ as → a ∈ topo) (D : String → Prop)
+    (hD : ∀ b, b ∈ topo → D (tgt b) → ∀ n, n ∈ reads b.2 → D n)
+    {r : Rd} (hi : r.info = fin.info) (hm : r.mem = fin.mem) (hok : ∀ a, a ∈ topo → LhsOk fin a.1)
+    (hag : ∀ n, D n → r.val n = fin.val n) (a : LHS × Expr) (ha : a ∈ as) :
+    ∀ n, D n → (stepA r a).val n = fin.val n := by
+  intro n hn
+  have hat := hmem a ha
+  rw [stepA_val (LhsOk_congr hi.symm (hok a hat))]
+  by_cases e : n = tgt a
+  · rw [if_pos e, e, hS a hat, widthOf_congr hi]
+    apply evalAssign_congr hi hm
+    intro m hm'
+    exact hag m (hD a hat (e ▸ hn) m hm')
+  · rw [if_neg e]; exact hag n hn
+
+theorem fold_agree (hS : Settled topo fin) (hmem : ∀ a, a ∈ as → a ∈ topo) (D : String → Prop)
+    (hD : ∀ b, b ∈ topo → D (tgt b) → ∀ n, n ∈ reads b.2 → D n) (hok : ∀ a, a ∈ topo → LhsOk fin a.1)
+    (l : List (LHS × Expr)) (hl : ∀ a, a ∈ l → a ∈ as) {r : Rd} (hi : r.info = fin.info) (hm : r.mem = fin.mem)
+    (hag : ∀ n, D n → r.val n = fin.val n) : ∀ n, D n → (passA l r).val n = fin.val n := by
+  induction l generalizing r with
+  | nil => exact hag
+  | cons a l ih =>
+    simp only [passA, List.foldl] at ih ⊢
+    apply ih (fun b hb => hl b (by simp [hb])) (by rw [stepA_info, hi]) (by rw [stepA_mem, hm])
+    exact step_agree hS hmem D hD hi hm hok hag a (hl a (by simp))
+
+/-- one pass over the text makes (at least) the next assign of the sources-first order final -/
+theorem pass_gain (hA : Acyc topo) (hS : Settled topo fin) (hp : as.Perm topo) (hok : ∀ a, a ∈ topo → LhsOk fin a.1)
+    {pre post : List (LHS × Expr)} {a : LHS × Expr} (ht : topo = pre ++ a :: post)
+    {r : Rd} (hi : r.info = fin.info) (hm : r.mem = fin.mem) (hag : ∀ n, Dn topo pre n → r.val n = fin.val n) :
+    ∀ n, Dn topo (pre ++ [a]) n → (passA as r).val n = fin.val n := by
+  have hmem : ∀ b, b ∈ as → b ∈ topo := fun b hb => hp.mem_iff.mp hb
+  have hat : a ∈ topo := by rw [ht]; simp
+  have haas : a ∈ as := hp.mem_iff.mpr hat
+  obtain ⟨l1, l2, hl⟩ := List.append_of_mem haas
+  have ht1 : topo = pre ++ (a :: post) := ht
+  have ht2 : topo = (pre ++ [a]) ++ post := by rw [ht]; simp
+  have hD1 := fun b hb hd => Dn_closed hA ht1 b hb hd
+  have hD2 := fun b hb hd => Dn_closed hA ht2 b hb hd
+  have e : passA as r = passA l2 (stepA (passA l1 r) a) := by
+    rw [hl]; simp [passA, List.foldl_append]
+  rw [e]
+  have hl1 : ∀ b, b ∈ l1 → b ∈ as := fun b hb => by rw [hl]; simp [hb]
+  have hl2 : ∀ b, b ∈ l2 → b ∈ as := fun b hb => by rw [hl]; simp [hb]
+  have hi1 : (passA l1 r).info = fin.info := by rw [passA_info, hi]
+  have hm1 : (passA l1 r).mem = fin.mem := by rw [passA_mem, hm]
+  have h1 := fold_agree hS hmem (Dn topo pre) hD1 hok l1 hl1 hi hm hag
+  apply fold_agree hS hmem (Dn topo (pre ++ [a])) hD2 hok l2 hl2 (by rw [stepA_info, hi1]) (by rw [stepA_mem, hm1])
+  intro n hn
+  rw [stepA_val (LhsOk_congr hi1.symm (hok a hat))]
+  by_cases en : n = tgt a
+  · rw [if_pos en, en, hS a hat, widthOf_congr hi1]
+    apply evalAssign_congr hi1 hm1
+    intro m hm'
+    exact h1 m (Dn_next hA ht m hm')
+  · rw [if_neg en]
+    apply h1 n
+    rcases hn with h | h
+    · simp only [List.map_append, List.mem_append, List.map_cons, List.map_nil, List.mem_singleton] at h
+      rcases h with h | h
+      · left; exact h
+      · exact absurd h en
+    · right; exact h
+
+theorem iter_reach (hA : Acyc topo) (hS : Settled topo fin) (hp : as.Perm topo) (hok : ∀ a, a ∈ topo → LhsOk fin a.1)
+    (post pre : List (LHS × Expr)) (ht : topo = pre ++ post)
+    {r : Rd} (hi : r.info = fin.info) (hm : r.mem = fin.mem) (hag : ∀ n, Dn topo pre n → r.val n = fin.val n) :
+    ∀ n, (Net.iter (passA as) post.length r).val n = fin.val n := by
+  induction post generalizing pre r with
+  | nil =>
+    intro n
+    apply hag n
+    by_cases h : n ∈ topo.map tgt
+    · left; rw [ht] at h; simpa using h
+    · right; exact h
+  | cons a post ih =>
+    simp only [List.length_cons, Net.iter]
+    apply ih (pre ++ [a]) (by rw [ht]; simp) (by rw [passA_info, hi]) (by rw [passA_mem, hm])
+    exact pass_gain hA hS hp hok ht hi hm hag
+
+/-- a settled valuation is a fixpoint of the pass -/
+theorem pass_fix (hS : Settled topo fin) (hp : as.Perm topo) (hok : ∀ a, a ∈ topo → LhsOk fin a.1)
+    {r : Rd} (hi : r.info = fin.info) (hm : r.mem = fin.mem) (hag : ∀ n, r.val n = fin.val n) :
+    ∀ n, (passA as r).val n = fin.val n := by
+  intro n
+  exact fold_agree (as := as) hS (fun b hb => hp.mem_iff.mp hb) (fun _ => True) (fun _ _ _ _ _ => trivial) hok as
+    (fun _ h => h) hi hm (fun n _ => hag n) n trivial
+
+end Reach
+
+theorem settled_perm {as topo : List (LHS × Expr)} (hp : as.Perm topo) (r : Rd) : Settled as r ↔ Settled topo r :=
+  ⟨fun h a ha => h a (hp.mem_iff.mpr ha), fun h a ha => h a (hp.mem_iff.mp ha)⟩
+
+theorem rd_ext (r r' : Rd) (hi : r.info = r'.info) (hm : r.mem = r'.mem) (hv : ∀ n, r.val n = r'.val n) : r = r' := by
+  cases r; cases r'
+  simp only [Rd.mk.injEq] at *
+  exact ⟨hi, funext hv, hm⟩
+
+/-- **(b) the passes reach the settled valuation.**  `as` is the text order, `topo` any sources-first rearrangement of it.
+    From ANY store, `length` passes (or more) give exactly the store obtained by evaluating once in sources-first order
+    — which is settled (`pass_topo_settled`) and the only settled one (`settled_unique`). -/
+theorem iter_eq_topo {as topo : List (LHS × Expr)} (hp : as.Perm topo) (hA : Acyc topo) (r0 : Rd)
+    (hok : ∀ a, a ∈ as → LhsOk r0 a.1) (j : Nat) (hj : as.length ≤ j) :
+    Net.iter (passA as) j r0 = passA topo r0 := by
+  have hokt : ∀ a, a ∈ topo → LhsOk r0 a.1 := fun a ha => hok a (hp.mem_iff.mpr ha)
+  have hi : (passA topo r0).info = r0.info := passA_info _ _
+  have hm : (passA topo r0).mem = r0.mem := passA_mem _ _
+  have hS := pass_topo_settled topo hA r0 hokt
+  have hokf : ∀ a, a ∈ topo → LhsOk (passA topo r0) a.1 := fun a ha => LhsOk_congr hi.symm (hokt a ha)
+  have hlen : as.length = topo.length := hp.length_eq
+  have hbase : ∀ n, (Net.iter (passA as) topo.length r0).val n = (passA topo r0).val n := by
+    apply iter_reach hA hS hp hokf topo [] (by simp) hi.symm hm.symm
+    intro n hn
+    rcases hn with h | h
+    · simp at h
+    · rw [passA_val_other topo r0 hokt n]
+      intro b hb e
+      exact h (List.mem_map.mpr ⟨b, hb, e.symm⟩)
+  -- extra passes do nothing
+  have hextra : ∀ e, ∀ n, (Net.iter (passA as) (topo.length + e) r0).val n = (passA topo r0).val n := by
+    intro e
+    induction e with
+    | zero => exact hbase
+    | succ e ih =>
+      have hsplit : ∀ (a b : Nat) (x : Rd), Net.iter (passA as) (a + b) x = Net.iter (passA as) b (Net.iter (passA as) a x) := by
+        intro a b x
+        induction a generalizing x with
+        | zero => simp [Net.iter]
+        | succ a iha => rw [Nat.succ_add]; simp only [Net.iter]; exact iha _
+      rw [← Nat.add_assoc, hsplit (topo.length + e) 1]
+      simp only [Net.iter]
+      apply pass_fix hS hp hokf (by rw [iter_passA_info, hi]) (by rw [iter_passA_mem, hm]) ih
+  obtain ⟨e, he⟩ : ∃ e, j = topo.length + e := ⟨j - topo.length, by omega⟩
+  rw [he]
+  apply rd_ext
+  · rw [iter_passA_info, hi]
+  · rw [iter_passA_mem, hm]
+  · exact hextra e
 
 end FlatM
